@@ -314,9 +314,10 @@ func c17RaceDetector() c17RaceObs {
 	}
 	ctx, cancel := context.WithTimeout(context.Background(), 240*time.Second)
 	defer cancel()
-	cmd := exec.CommandContext(ctx, goBin, "test", "-race", "-vet=off", "-count=1", "-run", "TestVerifC17Race", ".")
+	cmd := exec.CommandContext(ctx, goBin, "test", "-race", "-v", "-vet=off", "-count=1", "-run", "TestVerifC17Race", ".")
 	cmd.Dir = tmp
-	cmd.Env = append(os.Environ(), "GOFLAGS=-mod=mod", "GOPROXY=off", "GOSUMDB=off", "GOTOOLCHAIN=local")
+	// the race detector needs cgo (the check's environment turns it off for its own builds)
+	cmd.Env = append(os.Environ(), "GOFLAGS=-mod=mod", "GOPROXY=off", "GOSUMDB=off", "GOTOOLCHAIN=local", "CGO_ENABLED=1")
 	out, _ := cmd.CombinedOutput()
 	s := string(out)
 	i := strings.Index(s, "VERIF-C17-RACE ")
